@@ -57,6 +57,7 @@ static void install_handlers(void) {
 }
 
 int hx_mutate_main(int argc, char **argv);
+int hx_mode_conc(int argc, char **argv);
 
 /* ---- hx fail: allocation-fault enumeration (C18).  For every case: count the allocations A of the fault-free
  * run, then one run per k in 1..A (optionally strided, optionally with a second failure at k+j) with the k-th
@@ -243,6 +244,7 @@ int main(int argc, char **argv) {
     else if (strcmp(argv[1], "seg") == 0) rc = hx_seg_main(argc - 2, argv + 2);
     else if (strcmp(argv[1], "mutate") == 0) rc = hx_mutate_main(argc - 2, argv + 2);
     else if (strcmp(argv[1], "fail") == 0) rc = fail_main(argc - 2, argv + 2);
+    else if (strcmp(argv[1], "conc") == 0) rc = hx_mode_conc(argc - 2, argv + 2);
     else fprintf(stderr, "hx: unknown mode %s\n", argv[1]);
     fflush(stdout);
     return rc;
